@@ -167,9 +167,30 @@ def _validate_one(specdir, trace, idx, workers, timeout, module):
     txt = re.sub(r'TraceFile = "[^"]*"', 'TraceFile = "%s"' % rel, txt)
     with open(os.path.join(specdir, cfg), "w") as f:
         f.write(txt)
-    out, gen, dist = run_tlc(specdir, module, cfg, workers=workers, timeout=timeout,
-                             outfile=os.path.join(specdir, "%s.run%d.out" % (module, idx)))
+    outpath = os.path.join(specdir, "%s.run%d.out" % (module, idx))
     verdicts = {}
+    for attempt in range(9):
+        try:
+            out, gen, dist = run_tlc(specdir, module, cfg, workers=workers, timeout=timeout, outfile=outpath)
+            break
+        except Infra as e:
+            # the specification could not evaluate one recorded line (a TLC evaluation error, not a verdict): the line is
+            # set aside as an abstention and the rest of the shard is validated; more than 8 such lines is a broken check
+            m = re.search(r"/\\ l = (\d+)", str(e))
+            if attempt == 8 or m is None or "unexpected exception" not in str(e) and "evaluating" not in str(e):
+                raise
+            k = int(m.group(1))
+            with open(trace) as f:
+                lines = f.readlines()
+            if not (1 <= k <= len(lines)):
+                raise
+            bad = json.loads(lines[k - 1])
+            verdicts[bad["id"]] = "inc:specification evaluation error"
+            log("   the specification could not evaluate trace line id %s (%s); set aside as an abstention" % (bad["id"], module))
+            with open(trace, "w") as f:
+                f.writelines(lines[:k - 1] + lines[k:])
+            if len(lines) == 1:
+                return verdicts, 0, 0
     with open(out, errors="replace") as f:
         for line in f:
             m = _re_verdict.match(line)
